@@ -23,7 +23,7 @@ from . import cyst_compat  # noqa: F401
 from AIDojoCoordinator.game_components import IP, Network, Service, Data, GameState, Action, ActionType
 from . import canon as C
 from .common import Driver
-from .worldgen import gen_scenario, make_world, world_reset, compare_loader
+from .worldgen import gen_scenario, make_world, world_reset, world_step, compare_loader
 
 SHIPPED = ["scenario1_small", "scenario1", "three_nets"]
 
@@ -54,6 +54,12 @@ class Gen:
 
     def any_ip(self, view=None):
         r = self.rng.random()
+        if self.ips and self.rng.random() < 0.04:
+            # an IPv6 literal with the numeric value of an existing IPv4 host (plain or IPv4-mapped): a valid address that
+            # is NOT that host
+            import ipaddress
+            x = int(ipaddress.IPv4Address(str(self.rng.choice(self.ips))))
+            return IP(str(ipaddress.IPv6Address(x if self.rng.random() < 0.6 else (0xffff << 32) + x)))
         if view is not None and r < 0.55 and view.known_hosts:
             return self.rng.choice(sorted(view.known_hosts, key=str))
         if r < 0.9 and self.ips:
@@ -344,13 +350,13 @@ class WorldSession:
             diffs.append(f"loader-model: {e!r}")
         return diffs
 
-    def step(self, view: GameState, action: Action):
+    def step(self, view: GameState, action: Action, agent=0):
         """Executes on both sides. Returns dict with real/model results and the comparison."""
         vj = C.view2j(view)
         aj = C.action2j(action)
         world_before = C.world2j(self.w)
         try:
-            new = self.w._execute_action(view, action)
+            new = world_step(self.w, view, action, agent)
             raised = None
         except Exception as e:      # the coordinator answers BAD_REQUEST
             new, raised = None, repr(e)
@@ -467,7 +473,7 @@ def run_walks(drv, rng, stats: Stats, on_fail, worlds, walks_per_world, steps, r
                     outsider = [x for x in sess.gen.ips if x not in views[ag].controlled_hosts] or [IP("10.99.99.99")]
                     act = Action(ActionType.FindServices, {"source_host": rng.choice(outsider), "target_host": sess.gen.any_ip(views[ag])})
                 tampered = views[ag] != last_returned[ag]       # the object the agent holds was changed behind its back
-                rec = sess.step(views[ag], act)
+                rec = sess.step(views[ag], act, ag)
                 stats.steps += 1
                 if tampered and rec["pre"] and rec.get("new") is not None:
                     # C03: the result must be the documented effect applied to the view the agent was HANDED
@@ -581,6 +587,17 @@ def run_walks(drv, rng, stats: Stats, on_fail, worlds, walks_per_world, steps, r
                         stats.directed_interference = getattr(stats, "directed_interference", 0) + 1
                         if rng.random() < 0.75:
                             forced.append((nag - 1, Action(ActionType.ExfiltrateData, {"source_host": S, "target_host": H, "data": dd})))
+                            # ... and then looks at a THIRD host it controls (preferably one that holds no data): the copy went to H
+                            # and nowhere else
+                            third = [ip for ip, hn in sorted(sess.w._ip_to_hostname.items(), key=lambda kv: str(kv[0])) if ip not in (H, S)]
+                            empty = [ip for ip in third if not sess.w._data.get(sess.w._ip_to_hostname[ip])]
+                            if third and rng.random() < 0.6:
+                                H2 = rng.choice(empty or third)
+                                vb.controlled_hosts.add(H2)
+                                vb.known_hosts.add(H2)
+                                history[-1] = [(copy.deepcopy(vb), vb)]
+                                last_returned[-1] = copy.deepcopy(vb)
+                                forced.append((nag - 1, Action(ActionType.FindData, {"source_host": H2, "target_host": H2})))
                         else:
                             forced.append((nag - 1, Action(ActionType.BlockIP, {"source_host": H, "target_host": H, "blocked_host": S})))
                         outsider = [x for x in sess.gen.ips if x not in new.controlled_hosts] or [IP("10.99.99.99")]
@@ -628,7 +645,7 @@ def run_walks(drv, rng, stats: Stats, on_fail, worlds, walks_per_world, steps, r
                     idx = [1] * nag
                     for (ag, act) in script:
                         try:
-                            nv = sess.w._execute_action(views2[ag], act)
+                            nv = world_step(sess.w, views2[ag], act, ag)
                         except Exception:
                             continue
                         sess.drv.ask({"op": "step", "view": C.view2j(views2[ag]), "action": C.action2j(act)})
